@@ -79,13 +79,18 @@ def expandPrefix (p : RPath) (pre : FName) (f : Option RPath) : Option RPath :=
     | none => none
     | some repl => some (RPath.join repl rest)
 
+/-- SWITCH (finding F-16, `design/fixes/C16-extension.diff`).
+    `false` = jaq as it is: `rel.set_extension(ext)` always (a given extension is replaced);
+    `true`  = after the fix: the extension is added only when the path has none.
+    The integrator flips this one definition when the fix is applied to /repo. -/
+def extFixApplied : Bool := true
+
 structure SearchEnv where
   home : Option RPath          -- `$HOME`
   origin : Option RPath        -- directory of the running executable
   cwd : List FName             -- absolute working directory
-  /-- SWITCH (finding F-16).  `false` = the code as it is (`rel.set_extension(ext)` always);
-      `true` = proposed fix `design/fixes/C16-extension.diff` (only when no extension is given). -/
-  extOnlyWhenMissing : Bool := false
+  /-- which extension rule applies (see `extFixApplied`) -/
+  extOnlyWhenMissing : Bool := extFixApplied
 
 /-- the closure `expand` of `Import::find` -/
 def expand (env : SearchEnv) (p : RPath) : RPath :=
